@@ -101,6 +101,12 @@ CHECKS: dict[str, tuple[str, str, str, str, str]] = {
             "expected value; enum member tables (incl. aliases) are compared with the wire enums; to_dict/from_dict round trips.",
             "runtime monitoring: differential check of real conversions vs descriptor-derived reference over generated inputs",
             "DESIGN.md §4 C14"),
+    "C15": ("S", "exploration",
+            "Every command method x every subset of optional arguments x falsy/typical/extreme values x API versions around each threshold is "
+            "called on a live simulated session; the request decoded independently at the device is compared with the request predicted by a "
+            "declarative table written from api.proto (presence flags read from the .proto text) and the statement.",
+            "runtime monitoring: wire monitor (independent decode at the simulated device) vs table-driven expected request, exhaustive argument subsets",
+            "DESIGN.md §4 C15"),
 }
 
 NOT_YET = {
